@@ -289,9 +289,11 @@ def _always_exits(s):
 
 # ---------------------------------------------------------------------------------------------------------------
 def best_renaming(reference_texts, current_texts, limit=7):
-    """Reference summaries name reassigned locals by declaration order (?v1, ?v2, ...). Moving a declaration, or adding
-    / removing a local, shifts the numbers without changing anything else. Returns the mapping {current name ->
-    reference name} that makes the largest number of reference texts reappear among the current texts."""
+    """Reference summaries name reassigned locals by declaration order (?v1, ?v2, ...). Moving a declaration, adding /
+    removing a local, or moving statements into / out of a helper shifts the numbers without changing anything else.
+    Returns the mapping {current name -> reference name} that makes the largest number of reference texts reappear
+    among the current texts (texts of the same shape vote for the pairing of their names; small cases are searched
+    exhaustively)."""
     import itertools
     import re
     rx = re.compile(r"\?v\d+")
@@ -300,21 +302,50 @@ def best_renaming(reference_texts, current_texts, limit=7):
     cn = sorted({m for t in cur for m in rx.findall(t)})
     if not gn or not cn:
         return {}
-    if len(cn) > limit or len(gn) > limit:
-        return {}
 
     def apply(mapping, t):
         return rx.sub(lambda m: mapping.get(m.group(0), m.group(0)), t)
-    ident = {c: c for c in cn}
-    best, best_score = ident, sum(1 for t in cur if t in ref)
-    if best_score == len(ref):
+
+    def score(mapping):
+        return sum(1 for t in cur if apply(mapping, t) in ref)
+    base = score({})
+    if base == len(ref):
         return {}
-    targets = gn + ["?w%d" % i for i in range(max(0, len(cn) - len(gn)))]
-    for perm in itertools.permutations(targets, len(cn)):
-        mapping = dict(zip(cn, perm))
-        score = sum(1 for t in cur if apply(mapping, t) in ref)
-        if score > best_score:
-            best, best_score = mapping, score
+    best, best_score = {}, base
+    # votes from texts of equal shape
+    shape = lambda t: rx.sub("?v_", t)
+    by_shape_ref, by_shape_cur = {}, {}
+    for t in ref:
+        by_shape_ref.setdefault(shape(t), []).append(t)
+    for t in cur:
+        by_shape_cur.setdefault(shape(t), []).append(t)
+    votes = {}
+    for sh, rts in by_shape_ref.items():
+        cts = by_shape_cur.get(sh)
+        if not cts or len(rts) != 1 or len(cts) != 1:
+            continue
+        for c, g in zip(rx.findall(cts[0]), rx.findall(rts[0])):
+            votes[(c, g)] = votes.get((c, g), 0) + 1
+    mapping, used = {}, set()
+    for (c, g), n in sorted(votes.items(), key=lambda kv: -kv[1]):
+        if c in mapping or g in used:
+            continue
+        mapping[c] = g
+        used.add(g)
+    # names that keep their number must not collide with a mapped target
+    for c in cn:
+        if c not in mapping and c in used:
+            mapping[c] = "?w" + c[2:]
+    sc = score(mapping)
+    if sc > best_score:
+        best, best_score = mapping, sc
+    if len(cn) <= limit and len(gn) <= limit:
+        targets = gn + ["?w%d" % i for i in range(max(0, len(cn) - len(gn)))]
+        for perm in itertools.permutations(targets, len(cn)):
+            m2 = dict(zip(cn, perm))
+            sc = score(m2)
+            if sc > best_score:
+                best, best_score = m2, sc
     return {k: v for k, v in best.items() if k != v}
 
 
